@@ -224,6 +224,13 @@ def registry():
     return sorted(mx.get_models())
 
 
+def regview(m):
+    """[is m still registered, was it renamed, how many other models are registered]"""
+    ms = list(mx.get_models().values())
+    here = any(x is m for x in ms)
+    return [here, m.name != "M", len(ms) - (1 if here else 0)]
+
+
 def count_entries(p):
     n = 1
     for _d, ds, fs in os.walk(p):
@@ -287,9 +294,6 @@ def extra_listing(tmp, base):
 
 
 def do_save(m, base, sv, kind):
-    nat = None
-    if sv.get("natural"):
-        m.bad = (i for i in range(3))         # a generator cannot be pickled
     INJ.start(sv.get("fault"), base)
     exc = None
     try:
@@ -303,7 +307,10 @@ def do_save(m, base, sv, kind):
     fl = flags()
     if sv.get("natural"):
         del m.bad
-    return {"exc": exc, "trace": trace, "fired": INJ.fired, "flags": fl}
+    r = {"exc": exc, "trace": trace, "fired": INJ.fired, "flags": fl}
+    if INJ.fired:
+        r["fault_index"] = sv.get("fault")
+    return r
 
 
 def run_case(c, tmp):
@@ -314,10 +321,13 @@ def run_case(c, tmp):
     g = 0
     for sv in c["saves"]:
         g += 1
+        if sv.get("natural"):
+            m.bad = (i for i in range(3))     # a generator cannot be pickled (set first: reference edits delete ItemSpaces)
         set_gen(m, kind, g)
         reg0 = registry()
         r = do_save(m, base, sv, kind)
         r["models"] = registry()
+        r["regview"] = regview(m)
         r["models_same"] = (registry() == reg0) and mx.get_models().get("M") is m
         r["path_set"] = (m.path == base) if getattr(m, "path", None) is not None else False
         if c.get("observe", "all") == "all" or sv is c["saves"][-1]:
@@ -332,6 +342,7 @@ def run_case(c, tmp):
         r = do_save(m, base, {"fmt": c["final"], "fault": None}, kind)
         r["slots"] = [observe_slot(p, kind, None) for p in slots(base)]
         r["models"] = registry()
+        r["regview"] = regview(m)
         out["final"] = r
     return out
 
@@ -401,6 +412,7 @@ def do_load(m, base, ld, kind, tmp):
     r["gone"] = sorted(k for k, v in ident.items() if v not in after.values())
     r["renamed"] = sorted([k0, k1] for k0, v0 in ident.items() for k1, v1 in after.items() if v0 == v1 and k0 != k1)
     r["models"] = sorted(after)
+    r["regview"] = regview(m)
     r["m_name"] = m.name
     # restore the session for the next operation
     for name, mod in list(mx.get_models().items()):
